@@ -42,4 +42,15 @@ def plan(ctx):
         if q.name.split('/')[0] in ('enable_disable', 'disable_in_at'):
             q.name = 'action_class/' + q.name
             qs.append(q)
+    # every other combinator hands its apply mode on to its sub-rules unchanged (otherwise actions below it fire in disabled / look-ahead
+    # sections, or are lost where they are enabled): the rule-by-rule harness of C09 checks the apply mode every sub-rule call receives
+    from props import C09
+    fwd = ('if_then_else', 'if_must2', 'if_must_else', 'list2', 'list_must2', 'list_tail2', 'until2', 'rep2', 'rep_min1', 'rep_opt2', 'rematch2', 'rematch3', 'star_must2',
+           'opt_must2', 'pad2', 'partial3', 'star_partial2', 'strict2', 'star_strict2', 'separated_seq', 'if_then', 'if_then_elif', 'must2')
+    for q in C09.plan(ctx):
+        parts = q.name.split('/')
+        if parts[0] == 'sym' and parts[1] in fwd:
+            q.name = 'apply_mode_forwarding/' + '/'.join(parts[1:])
+            q.note = 'every sub-rule call receives the apply mode of the rule (and result/consumption vs the documented equivalence)'
+            qs.append(q)
     return qs
